@@ -399,6 +399,7 @@ def oracle_world(w):
                 fail("C01", knocked[0] if knocked else "converged-not-mip03", len(w.trace) - 1, f"members agree on T{common} but the MIP-03 chain {chain} ends in T{cur}")
     # C02: a message created on the winning branch ends stored, valid, at every remaining member
     if getattr(w, "quiesced", False) and live and facts.get("winner_tokens"):
+        offered_at = first_offer_epochs(w)
         for n, e in w.events.items():
             if e["kind"] != "app" or e["mid"] is None or e.get("rewrap_of") is not None:
                 continue
@@ -407,8 +408,13 @@ def oracle_world(w):
             for c, f in live.items():
                 rows = [m for m in f["msgs"] if m["id"].rstrip("!") == e["mid"]]
                 rec = f["recs"].get(n)
+                at = offered_at.get((c, n))
+                if at is not None and e.get("parent_epoch") is not None and at - e["parent_epoch"] > WINDOW:
+                    facts["outside_window"] = facts.get("outside_window", 0) + 1
+                    continue        # first offered more than the look-back / past-epoch window late: outside the property
+                ahead = at is not None and e.get("parent_epoch") is not None and at < e["parent_epoch"]
                 if not rows:
-                    sig = "handshake-before-predecessor-blocked" if rec and rec[0] == "f" and rec[1] == "-" else "winning-message-missing"
+                    sig = "handshake-before-predecessor-blocked" if rec and rec[0] == "f" and rec[1] == "-" and ahead else "winning-message-missing"
                     fail("C02", sig, len(w.trace) - 1, f"message {e['mid']} (event {n}, sent on the winning branch by c{e['sender']}) is not stored at c{c} (record {rec})")
                 elif rows[0]["state"] not in ("p",) and not (c == e["sender"] and rows[0]["state"] == "c" and rec is None):
                     if rows[0]["state"] != "x":
@@ -435,6 +441,24 @@ def oracle_world(w):
                     if m["id"].endswith("!"):
                         fail("C04", "stored-id-not-hash", len(w.trace) - 1, f"stored message {m['id']} at c{c}: id is not the hash of its content")
     return fails, facts
+
+def first_offer_epochs(w):
+    """(client, event) -> the client's epoch right before the event was FIRST offered to it"""
+    epoch_before, prev_fp = {}, {}
+    for cmd, res, fp in w.trace:
+        t = cmd.split()
+        c = int(t[1]) if len(t) > 1 and t[1].isdigit() and t[0] not in ("rewrap", "retag") else None
+        if t[0] == "deliver" and c is not None:
+            key = (c, int(t[2]))
+            if key not in epoch_before and prev_fp.get(c) is not None:
+                epoch_before[key] = prev_fp[c]["epoch"]
+        if c is not None:
+            f = parse_fp(fp)
+            if f is not None:
+                prev_fp[c] = f
+    return epoch_before
+
+WINDOW = 5      # DEFAULT_EPOCH_LOOKBACK = MdkConfig::default().max_past_epochs (the harness never changes them)
 
 def classify_divergence(w, live):
     """mechanism signature of a C01 divergence, from the trace"""
